@@ -35,10 +35,19 @@ func fakeBusy(stop *atomic.Bool) {
 	<-ch
 }
 
+//go:noinline
+func fakeSleep(d time.Duration) {
+	ch := make(chan int)
+	go func() { time.Sleep(d); ch <- 1 }()
+	<-ch
+}
+
 func TestC04_WatchdogSelfTest(t *testing.T) {
-	oldMin, oldFirst, oldEvery := wdMinDeadline, wdFirstProbe, wdProbeEvery
-	defer func() { wdMinDeadline, wdFirstProbe, wdProbeEvery = oldMin, oldFirst, oldEvery }()
-	wdMinDeadline, wdFirstProbe, wdProbeEvery = 3*time.Second, 300*time.Millisecond, 300*time.Millisecond
+	oldMin, oldFirst, oldEvery, oldCPU, oldGap, oldExt := wdMinDeadline, wdFirstProbe, wdProbeEvery, wdCPUMin, wdAliveGap, wdExtend
+	defer func() {
+		wdMinDeadline, wdFirstProbe, wdProbeEvery, wdCPUMin, wdAliveGap, wdExtend = oldMin, oldFirst, oldEvery, oldCPU, oldGap, oldExt
+	}()
+	wdMinDeadline, wdFirstProbe, wdProbeEvery, wdExtend = 3*time.Second, 300*time.Millisecond, 300*time.Millisecond, 1
 
 	v := watch("selftest/dead", "c04.fakeDeadlock", 0, func() { fakeDeadlock(3) })
 	if !v.deadlock {
@@ -49,10 +58,31 @@ func TestC04_WatchdogSelfTest(t *testing.T) {
 	var stop atomic.Bool
 	v = watch("selftest/busy", "c04.fakeBusy", 0, func() { fakeBusy(&stop) })
 	stop.Store(true)
-	if v.deadlock || v.ok {
-		t.Fatalf("a running computation was classified deadlock=%v ok=%v", v.deadlock, v.ok)
+	if v.deadlock || v.ok || v.spin {
+		t.Fatalf("a running computation below its CPU allowance was classified deadlock=%v ok=%v spin=%v", v.deadlock, v.ok, v.spin)
+	}
+	if len(v.alive) == 0 {
+		t.Fatalf("the running goroutine was not recognised as alive; dump:\n%s", clip(v.dump, 4000))
 	}
 	rep.Case("C04_WatchdogSelfTest", "synthetic slow call", true, "watchdog:alive_not_deadlock")
+
+	// the same spinning call with a CPU allowance of 1 CPU-second and the two "still running" probes
+	// 0.6 s apart: busy non-termination must be proven, and not before the allowance is consumed
+	wdCPUMin, wdAliveGap, wdExtend = time.Second, 600*time.Millisecond, 10
+	stop.Store(false)
+	v = watch("selftest/spin", "c04.fakeBusy", 0, func() { fakeBusy(&stop) })
+	stop.Store(true)
+	if !v.spin || v.cpu <= time.Second || len(v.alive) == 0 {
+		t.Fatalf("synthetic busy loop not proven: spin=%v cpu=%s alive=%v ok=%v deadlock=%v", v.spin, v.cpu, v.alive, v.ok, v.deadlock)
+	}
+	rep.Case("C04_WatchdogSelfTest", "synthetic busy loop", true, "watchdog:busy_nontermination_proven")
+
+	// a call that is merely waiting (sleeping goroutine: no CPU, not running) is never a spin verdict
+	v = watch("selftest/sleep", "c04.fakeSleep", 0, func() { fakeSleep(5 * time.Second) })
+	if v.spin || v.deadlock {
+		t.Fatalf("a sleeping call was classified spin=%v deadlock=%v", v.spin, v.deadlock)
+	}
+	rep.Case("C04_WatchdogSelfTest", "synthetic sleeping call", true, "watchdog:idle_not_spin")
 
 	v = watch("selftest/fast", libMarker, 0, func() {})
 	if !v.ok {
